@@ -158,3 +158,30 @@ CONTRACTS["model:Model.update_links#conversion"] = dict(
     defined_props=["C02"],
     raises_props=["C03"],
 )
+
+# ------------------------------------------------------------------------------------------------ timed compartments
+# The keyring matrix _vals has R rows (elapsed-time bins); row 0 is about to be flushed, arrivals enter row R-1.
+_timed_self = ["R >= 1", "self._vals.shape[0] == R", "0 <= ti", "ti < self._vals.shape[1]"]
+_timed_out = ["all(implies(isinstance(l, TimedLink), l._vals.shape[0] == R and ti < l._vals.shape[1]) for l in self.outlinks)",
+              "all(implies(not isinstance(l, TimedLink), ti < len(l.vals)) for l in self.outlinks)",
+              "self.flush_link in self.outlinks", "not isinstance(self.flush_link, TimedLink)", "ti < len(self.flush_link.vals)"]
+
+CONTRACTS["model:TimedCompartment.resolve_outflows"] = dict(
+    schema=schema,
+    params={"ti": "int"},
+    ghost_params={"R": "int"},
+    requires=_timed_self + _timed_out + [
+        "all(self._vals[i, ti] >= 0 for i in range(R))",
+        "all(l._cache >= 0 for l in self.outlinks)"],
+    modifies=["self._cached_outflow", "self.flush_link._cache", "l.vals[ti] for l in self.outlinks", "l._vals[:, ti] for l in self.outlinks"],
+    ensures=[
+        ("C02.timed_flows_nonneg", "all(l._vals[i, ti] >= 0 for l in self.outlinks if isinstance(l, TimedLink) for i in range(R))"),
+        ("C02.plain_flows_nonneg", "all(implies(not isinstance(l, TimedLink), l.vals[ti] >= 0) for l in self.outlinks)"),
+        ("C02.no_overdraw_per_row", "all(self._cached_outflow[i] <= self._vals[i, ti] for i in range(1, R))"),   # row 0: C05.row0_emptied
+        ("C05.row0_emptied", "self._cached_outflow[0] == self._vals[0, ti]"),
+        ("C05.timed_links_skip_row0", "all(implies(isinstance(l, TimedLink), l._vals[0, ti] == 0) for l in self.outlinks)"),
+        ("C02.common_rescale_per_row", "all(a._vals[i, ti] * b._cache == b._vals[i, ti] * a._cache for a in self.outlinks if isinstance(a, TimedLink) for b in self.outlinks if isinstance(b, TimedLink) for i in range(1, R))"),
+    ],
+    frame_props=["C01", "C02"],
+    defined_props=["C02"],
+)
